@@ -24,8 +24,12 @@ def run_pair(pd, pair, n=8, regime=4):
         m = pd.Mineral(phase=p, fabric=0 if p == 0 else 5, regime=regime, n_grains=n, seed=3)
         L = layerb.FLOWS["gen3d"]
         F = np.eye(3)
+        rp = pair.get("rp") or []
         for k in range(3):
-            F = m.update_orientations(layerb.make_params(par), F, lambda t, x: L, (k * 0.2, (k + 1) * 0.2, lambda t: np.zeros(3)))
+            kw = {}
+            if rp:
+                kw["get_regime"] = lambda t, x, t0=k * 0.2: rp[0] if (t - t0) < 0.08 else rp[1]
+            F = m.update_orientations(layerb.make_params(par), F, lambda t, x: L, (k * 0.2, (k + 1) * 0.2, lambda t: np.zeros(3)), **kw)
         outs.append((np.array(m.orientations), np.array(m.fractions)))
     do = np.abs(outs[0][0] - outs[1][0]).max()
     df = np.abs(outs[0][1] - outs[1][1]).max()
@@ -67,10 +71,18 @@ def main(tier):
     pairs = parse_printed_json(eq.output, "PAIR")
     rng = np.random.default_rng(SEED)
     if quick:
-        pairs = [pairs[i] for i in rng.choice(len(pairs), 24, replace=False)]
+        # a seeded sample, stratified by regime programme (4 pairs of each, olivine first: enstatite has no migration)
+        by = {}
+        for i in rng.permutation(len(pairs)):
+            by.setdefault(json.dumps(pairs[int(i)]["rp"]), []).append(pairs[int(i)])
+        pairs = [q for grp in by.values() for q in sorted(grp, key=lambda q: (q["phase"], q["multi"]["M"] == 0))[:3] + grp[-1:]]
     for pi, pair in enumerate(pairs):
         regime = (4, 6)[pi % 2]       # both dislocation-type regimes
-        do, df = run_pair(pd, pair, regime=regime)
+        try:
+            do, df = run_pair(pd, pair, regime=regime)
+        except Exception as e:  # noqa: BLE001
+            chk.violation(dict(clause="pair-run-raised", exc=type(e).__name__, rp=str(pair.get("rp"))), f"a supported update of the effective-mobility pair raised {e!r}", pair)
+            continue
         chk.count(("pair", json.dumps(pair, sort_keys=True), regime))
         chk.maximum("effective_mobility_pair_dO", do)
         chk.maximum("effective_mobility_pair_dF", df)
